@@ -1261,12 +1261,14 @@ func (e *env) edgeGrid() {
 	e.addFile("cpu", false, hourIdx("2023-03-17 10:00:00"), []row{e.rowAt("2023-03-17 10:30:00", 1)})
 	e.addFile("cpu", false, hourIdx("2023-09-16 08:00:00"), []row{e.rowAt("2023-09-16 08:30:00", 1)})
 	e.addFile("cpu", false, hourIdx("2024-03-15 10:00:00"), []row{e.rowAt("2024-03-15 10:30:00", 1)})
-	e.addFile("cpu", false, hourIdx("2025-03-01 10:00:00"), []row{e.rowAt("2025-03-01 10:30:00", 1)})
-	e.addFile("cpu", false, hourIdx("2025-03-12 10:00:00"), []row{e.rowAt("2025-03-12 10:30:00", 1)})
 	q("s", A('t', "ge", rhs{kind: 'R', n: 12, unit: "month"}), nil)
 	q("s", A('t', "gt", rhs{kind: 'R', n: 6, unit: "month", sp: 1}), nil)
-	q("s", And(A('t', "ge", e.L("2025-02-20 00:00:00", 1)), A('t', "lt", rhs{kind: 'R', plus: true, n: 12, unit: "month", sp: 1})), nil)
 	q("s", And(A('t', "ge", rhs{kind: 'R', n: 24, unit: "month"}), A('t', "le", rhs{kind: 'R', n: 2, unit: "week"})), nil)
+	e.reset()
+	e.setNow(ts("2024-03-15 15:00:00"))
+	e.addFile("cpu", false, hourIdx("2025-03-01 10:00:00"), []row{e.rowAt("2025-03-01 10:30:00", 1)})
+	e.addFile("cpu", false, hourIdx("2025-03-12 10:00:00"), []row{e.rowAt("2025-03-12 10:30:00", 1)})
+	q("s", And(A('t', "ge", e.L("2025-02-20 00:00:00", 1)), A('t', "lt", rhs{kind: 'R', plus: true, n: 12, unit: "month", sp: 1})), nil)
 	e.reset()
 	e.setNow(ts("2024-01-15 15:00:00"))
 	e.addFile("cpu", false, hourIdx("2023-12-15 20:00:00"), []row{e.rowAt("2023-12-15 20:30:00", 1)})
